@@ -9,6 +9,7 @@ CONSTANTS
   HintNames = {".", "al", "d"}
   BodyPool <- BodyRefs
   FragPool <- NoFrags
+  FileMeta <- Meta0
   Preambles <- Pre0
   MaxOps = 4
   MaxBody = 3
